@@ -23,7 +23,12 @@ HugeOpenArgs == {"ok_huge", "ok_huge_onepass"}     \* a log of > 512 Ki messages
 OnePassOpenArgs == {"ok_onepass", "ok_huge_onepass"}
 OpenBadArgs == {"noarg", "badjson", "nofiles", "emptyfiles", "fileswrongtype", "filesnonstring", "missingfile",
                 "nodlt", "badcollect", "pluginswrongtype", "pluginnotobj", "nonarchive_bang", "missingzip_bang"}
-StreamOkArgs  == {"ok", "ok_filt", "ok_text", "ok_onepass", "ok_defaults", "ok_emptywin"}
+\* frame size classes: the same well-formed command padded to 1 KiB / 1 MiB / 15 MiB / 17 MiB / 64 MiB (JSON white space resp. a long
+\* argument) - the reply is that of the small form
+SizeClasses == {"1k", "1m", "15m", "17m", "64m"}
+PadStreamArgs == {"pad:" \o z : z \in SizeClasses}
+BigUnknownArgs == {"big:" \o z : z \in SizeClasses}
+StreamOkArgs  == {"ok", "ok_filt", "ok_text", "ok_onepass", "ok_defaults", "ok_emptywin"} \cup PadStreamArgs
 StreamBadArgs == {"noarg", "badjson", "badwindow", "windowwrongtype", "filterswrongtype", "badfilter"}
 ChangeOkArgs  == {"ok", "ok_empty", "ok_garbage", "ok_beyond"}
 ChangeBadArgs == {"noarg", "nocomma"}
@@ -41,7 +46,7 @@ FsOkArgs      == {"stat_ok", "readdir_ok", "zip_readdir", "zip_stat"}
 FsFakeArgs    == {"fakezip_readdir", "fakezip_stat"}
 FsBadArgs     == {"noarg", "badjson", "notobject", "nocmd", "nopath", "unknowncmd", "stat_missing", "readdir_missing",
                   "arch_nonexist", "arch_unsupported"}
-UnknownArgs   == {"frobnicate", "empty", "uppercase", "stream_window", "leadingspace", "sentinel"}
+UnknownArgs   == {"frobnicate", "empty", "uppercase", "stream_window", "leadingspace", "sentinel"} \cup BigUnknownArgs
 PlainArgs     == {"", "junk"}                  \* close / pause / resume / stop ignore trailing text
 
 \* ---- numeric parameter classes: every numeric parameter (window start/end, start_idx, max_results, time_ms, index, ids) is
